@@ -30,6 +30,8 @@ type Scenario struct {
 	Horizon      int
 	EnvSince     bool
 	TimerRelease int
+	DelayThread  int // 0 = none (the main harness thread is never delayed)
+	DelayUntil   int
 	Build        func() (main func(), observer func(step int), verdict func(s *vs.Sched) Outcome)
 }
 
@@ -43,25 +45,25 @@ func (s Spec) String() string { return s.Kind + string(s.Params) }
 
 // Found is a violating execution.
 type Found struct {
-	Spec      Spec   `json:"spec"`
-	Choices   []int  `json:"choices"`
-	Violation string `json:"violation"`
-	Msg       string `json:"msg"`
+	Spec      Spec     `json:"spec"`
+	Choices   []int    `json:"choices"`
+	Violation string   `json:"violation"`
+	Msg       string   `json:"msg"`
 	Events    []string `json:"events,omitempty"`
 }
 
 type Stats struct {
-	Executions   int64          `json:"executions"`
-	Steps        int64          `json:"steps"`
-	Points       int64          `json:"points"`       // scheduling points beyond replayed prefixes = nodes of the schedule tree
-	Met          int64          `json:"met"`          // executions in which two threads touched a common object
-	Inconclusive int64          `json:"inconclusive"` // horizon-cut executions
-	Pruned       int64          `json:"pruned"`       // alternatives not taken because of the bound (0 = every interleaving was explored)
-	Capped       bool           `json:"capped"`       // a deadline stopped the enumeration of some scenario
-	MaxSteps     int            `json:"max_steps"`
-	Outcomes     map[string]int64 `json:"outcomes"`   // outcome class -> count (over executions where threads met)
-	Found        []Found        `json:"found"`
-	BoundDone    int            `json:"bound_done"`   // largest bound completed for every scenario explored
+	Executions   int64            `json:"executions"`
+	Steps        int64            `json:"steps"`
+	Points       int64            `json:"points"`       // scheduling points beyond replayed prefixes = nodes of the schedule tree
+	Met          int64            `json:"met"`          // executions in which two threads touched a common object
+	Inconclusive int64            `json:"inconclusive"` // horizon-cut executions
+	Pruned       int64            `json:"pruned"`       // alternatives not taken because of the bound (0 = every interleaving was explored)
+	Capped       bool             `json:"capped"`       // a deadline stopped the enumeration of some scenario
+	MaxSteps     int              `json:"max_steps"`
+	Outcomes     map[string]int64 `json:"outcomes"` // outcome class -> count (over executions where threads met)
+	Found        []Found          `json:"found"`
+	BoundDone    int              `json:"bound_done"` // largest bound completed for every scenario explored
 }
 
 func NewStats() *Stats { return &Stats{Outcomes: map[string]int64{}, BoundDone: -1} }
@@ -95,6 +97,10 @@ type Explorer struct {
 func RunOnce(sc Scenario, prefix []int) (*vs.Sched, Outcome) {
 	main, obs, verdict := sc.Build()
 	vs.TimerRelease = sc.TimerRelease
+	vs.DelayThread, vs.DelayUntil = -1, 0
+	if sc.DelayThread > 0 {
+		vs.DelayThread, vs.DelayUntil = sc.DelayThread, sc.DelayUntil
+	}
 	s := vs.Run(main, prefix, sc.Horizon, sc.EnvSince, obs)
 	if s.Diverged {
 		panic(fmt.Sprintf("HARNESS-ERROR: schedule diverged while replaying a prefix of %v (uncaptured nondeterminism)", sc.Spec))
